@@ -450,6 +450,13 @@ func runC07(args []string) int {
 				lines = append(lines[:pos], append(blk, lines[pos:]...)...)
 			}
 		}
+		// trailing comment on a flow-style rule line: the mapping node's OWN line comment (hoisted onto its first key by
+		// parseRule unless that key already has one); with and without a comment line above (the node's own head comment)
+		for li, l := range lines {
+			if strings.HasPrefix(l, "  - {") && !strings.Contains(l, "#") && r.Intn(2) == 0 {
+				lines[li] = l + " " + pick(r, rcomments)
+			}
+		}
 		// comment right after the dash of a sequence item (candidate for the mapping node's own line/head comment)
 		if r.Intn(4) == 0 {
 			for li, l := range lines {
